@@ -278,13 +278,14 @@ pub fn c01_cases(b: &Bounds) -> Vec<CaseDesc> {
     cases.extend(crate::codec::position_cases(&crate::vals::binary_types()));
     cases.extend(crate::codec::every_class_cases());
     cases.extend(crate::codec::forbidden_char_cases());
+    cases.extend(crate::codec::count_cases());
     for n in [255usize, 256, 257, 300, 1000] {
         cases.push(CaseDesc::Wide { n });
     }
     for d in [50usize, 300] {
         cases.push(CaseDesc::Chain { depth: d });
     }
-    for (kind, n) in [("classes", 300usize), ("classes", 4200), ("props", 300), ("props", 4200), ("sstr", 300), ("sstr", 4200), ("instances", 70_000), ("oddnames", 0), ("hugeblob", 17_000_000)] {
+    for (kind, n) in [("classes", 300usize), ("classes", 4200), ("props", 300), ("props", 4200), ("sstr", 300), ("sstr", 4200), ("instances", 70_000), ("oddnames", 0), ("namelens", 0), ("hugeblob", 17_000_000)] {
         cases.push(CaseDesc::Many { kind: kind.to_owned(), n });
     }
     cases
@@ -302,13 +303,14 @@ pub fn c02_cases(b: &Bounds) -> Vec<CaseDesc> {
     cases.extend(crate::codec::position_cases(&crate::vals::xml_types()));
     cases.extend(crate::codec::every_class_cases());
     cases.extend(crate::codec::forbidden_char_cases());
+    cases.extend(crate::codec::count_cases());
     for d in [1usize, 2, 3, 10, 100, 300] {
         cases.push(CaseDesc::Chain { depth: d });
     }
     for n in [255usize, 256, 257, 300, 1000] {
         cases.push(CaseDesc::Wide { n });
     }
-    for (kind, n) in [("classes", 300usize), ("classes", 4200), ("props", 300), ("props", 4200), ("sstr", 300), ("sstr", 4200), ("instances", 70_000), ("oddnames", 0), ("hugetext", 17_000_000)] {
+    for (kind, n) in [("classes", 300usize), ("classes", 4200), ("props", 300), ("props", 4200), ("sstr", 300), ("sstr", 4200), ("instances", 70_000), ("oddnames", 0), ("namelens", 0), ("hugetext", 17_000_000)] {
         cases.push(CaseDesc::Many { kind: kind.to_owned(), n });
     }
     cases
